@@ -10,6 +10,7 @@ import StyluaModel.Model.Cost
 import StyluaModel.Generated.ExitOps
 import StyluaModel.Model.Run
 import Driver.DiffProto
+import Driver.UnifiedProto
 import Driver.ConfigProto
 import Driver.SelectProto
 import Driver.TypeProto
@@ -96,6 +97,7 @@ def handle (line : String) : String :=
       let r := StyluaModel.Run.run m files files
       s!"{r.exit} w:{",".intercalate (r.written.map toString)} d:{",".intercalate (r.diffs.map toString)}"
   | ["diffjson", v, ops, o, n] => Driver.DiffProto.handle v ops o n
+  | ["diffuni", ops, o, n, tx] => Driver.UnifiedProto.handle ops o n tx
   | ["config", req] => Driver.ConfigProto.handle req
   | ["stdin", check, respect, ignored, parses, same] =>
       -- abstract run: the formatter is a parameter (parses? formatted = input?)
